@@ -184,8 +184,86 @@ theorem interpolate_rejects (t : Thr) (threads : Nat) (domain values : List K)
 
 end
 
-/-- the contracts on the routines of C07/C09 are satisfiable (so none of the theorems above is vacuous) … -/
+/-! ### cosets.  `hN : Ext.LawfulNtt root E` is the contract of C06: `ntt` evaluates at the powers of `ω = root n`,
+`intt` returns the polynomial of degree `< n` with the given values there (for pairwise distinct powers, i.e. a
+primitive `ω`).  `cosetDomain offset ω n = [offset·ω^i | i < n]`. -/
+section
+variable {E : Ext K} (hE : E.Lawful) (hN : Ext.LawfulNtt root E)
+include hN
+
+/-- `fast_coset_evaluate` = the Horner values on the coset, in order; it panics exactly when the order is not
+    above the degree or not a power of two (`fast_coset_evaluate_panics`). -/
+theorem fast_coset_evaluate_spec (p : List K) (offset : K) (order : Nat) (ω : K) (hω : root order = some ω)
+    (out : List K) (h : fastCosetEvaluate FK E p offset order = some out) :
+    out = (cosetDomain offset ω order).map (fun x => (denote p).eval x) :=
+  fastCosetEvaluate_sound root hN p offset order ω hω out h
+
+omit hN in
+theorem fast_coset_evaluate_panics (p : List K) (offset : K) (order : Nat) :
+    fastCosetEvaluate FK E p offset order = none ↔
+      ¬ (degSucc FK p ≤ order ∧ (order = 0 ∨ isPow2 order = true)) := by
+  unfold fastCosetEvaluate nttChecked
+  simp only [length_resize]
+  by_cases h1 : degSucc FK p ≤ order <;> by_cases h2 : order = 0 <;> by_cases h3 : isPow2 order = true <;>
+    simp [h1, h2, h3]
+
+/-- `fast_coset_interpolate` returns the unique polynomial of degree `< n` through the values on the coset. -/
+theorem fast_coset_interpolate_spec (offset : K) (values : List K) (ω : K) (hω : root values.length = some ω)
+    (hprim : ((List.range values.length).map (fun i => ω ^ i)).Nodup) (f : List K)
+    (h : fastCosetInterpolate FK E offset values = some f) :
+    Interpolates (cosetDomain offset ω values.length) values (denote f) :=
+  fastCosetInterpolate_sound root hN offset values ω hω hprim f h
+
+include hE
+
+/-- full statement for `coset_extrapolate`: for every codeword length, every strategy and arm. -/
+def coset_extrapolate_statement : Prop :=
+  ∀ (t : Thr), 2 ≤ t.zf → ∀ (offset : K) (codeword points : List K), offset ≠ 0 →
+    ∀ (ω : K), root codeword.length = some ω → ((List.range codeword.length).map (fun i => ω ^ i)).Nodup →
+    ∀ out, cosetExtrapolateWith FK E t offset codeword points = some out →
+    ∃ g : K[X], Interpolates (cosetDomain offset ω codeword.length) codeword g ∧
+      out = points.map (fun x => g.eval x)
+
+/-- **Extrapolation = evaluate(interpolate on the coset)** for `coset_extrapolate`: the naive strategy and the fast
+    strategy through the Lagrange arm and the INTT-then-reduce arm of `fast_modular_coset_interpolate`, for every
+    value of the three cut-offs, every number of points, every offset `≠ 0`.  Not covered: the even/odd recursion
+    (codeword longer than the INTT cut-off, `2^17` in the source) — see `tools/props/C08.json`. -/
+theorem coset_extrapolate_spec_partial (t : Thr) (hT : 2 ≤ t.zf) (offset : K) (codeword points : List K)
+    (hoff : offset ≠ 0) (hsmall : codeword.length ≤ t.intt ∨ codeword.length < t.lag) (ω : K)
+    (hω : root codeword.length = some ω) (hprim : ((List.range codeword.length).map (fun i => ω ^ i)).Nodup)
+    (out : List K) (h : cosetExtrapolateWith FK E t offset codeword points = some out) :
+    ∃ g : K[X], Interpolates (cosetDomain offset ω codeword.length) codeword g ∧
+      out = points.map (fun x => g.eval x) :=
+  cosetExtrapolateWith_sound root hN hE t hT offset codeword points hoff hsmall ω hω hprim out h
+
+/-- the naive strategy alone has no length restriction -/
+theorem naive_coset_extrapolate_spec (t : Thr) (offset : K) (codeword points : List K) (ω : K)
+    (hω : root codeword.length = some ω) (hprim : ((List.range codeword.length).map (fun i => ω ^ i)).Nodup)
+    (out : List K) (h : naiveCosetExtrapolate FK E t offset codeword points = some out) :
+    ∃ g : K[X], Interpolates (cosetDomain offset ω codeword.length) codeword g ∧
+      out = points.map (fun x => g.eval x) :=
+  naiveCosetExtrapolate_sound root hN hE t offset codeword points ω hω hprim out h
+
+/-- `fast_modular_coset_interpolate`, Lagrange arm and INTT arm: the coset interpolant modulo the modulus. -/
+theorem fast_modular_coset_interpolate_spec_partial (t : Thr) (hT : 2 ≤ t.zf) (values : List K) (offset : K)
+    (modulus : List K) (hoff : offset ≠ 0) (hsmall : values.length ≤ t.intt ∨ values.length < t.lag)
+    (ω : K) (hω : root values.length = some ω) (hprim : ((List.range values.length).map (fun i => ω ^ i)).Nodup)
+    (r : List K) (h : fmci FK E t values offset modulus = some r) :
+    ∃ g : K[X], Interpolates (cosetDomain offset ω values.length) values g ∧ denote r = g % denote modulus := by
+  unfold fmci at h
+  obtain ⟨pre, hpre, h⟩ := Option.bind_eq_some_iff.1 h
+  exact fmciWith_sound_small root hN hE t hT values offset modulus pre
+    (fmciPreprocess_modulus root _ _ _ _ hpre).1 hoff hsmall ω hω hprim r h
+
+end
+
+/-- a primitive 4th root of unity in `ℚ(i)`-free form: the hypotheses on `ω` are satisfiable, e.g. `ω = -1`, `n = 2` -/
+example : ((List.range 2).map (fun i => (-1 : ℚ) ^ i)).Nodup := by decide
+
+/-- the contracts on the routines of C06/C07/C09 are satisfiable (so none of the theorems above is vacuous) … -/
 example : (Ext.ideal : Ext ℚ).Lawful := Ext.ideal_lawful
+example (root : Nat → Option ℚ) : (Ext.idealNtt root).Lawful ∧ Ext.LawfulNtt root (Ext.idealNtt root) :=
+  ⟨Ext.idealNtt_lawful root, Ext.idealNtt_lawfulNtt root⟩
 /-- … and so are the hypotheses on the points -/
 example : ([0, 1, 2] : List ℚ).Nodup ∧ ([0, 1, 2] : List ℚ).length = ([5, 7, 11] : List ℚ).length
     ∧ ([0, 1, 2] : List ℚ) ≠ [] := by decide
